@@ -671,6 +671,8 @@ func runC11(f *common.Flags, res *common.Result, m *mdl) {
 				for _, c := range c11Contents {
 					m.hash(c)
 				}
+				inj, nh := checkHashHypotheses(append([][]byte{{}}, c11Contents...))
+				res.Notes = append(res.Notes, fmt.Sprintf("hypotheses checked on the SHA-256 values of the contents of the schedule replay (with the empty content): H_inj_on=%v no_hybrid=%v", inj, nh))
 				if f.Replay != "" {
 					if rp, err := common.LoadReplay(f.Replay); err == nil {
 						if sc := parseC11(rp.Violation.Input["scenario"]); sc != nil {
